@@ -38,7 +38,7 @@ BINARY = [
 def chunks(tier, seed):
     out = []
     for kind in I.KINDS:
-        n = len(A.poses(kind, tier, seed))
+        n = len(_alpha(kind, tier, seed))
         for i in range(n):
             out.append(("binary", kind, i))
         out.append(("point", kind, 0))
@@ -46,10 +46,23 @@ def chunks(tier, seed):
     return out
 
 
+def _alpha(kind, tier, seed):
+    """shared pose alphabet + members within 1e-6 of the identity (defeat tolerance-based 'is identity' shortcuts)."""
+    ps = A.poses(kind, tier, seed)
+    if kind == "SE2":
+        ps = ps + [[0.0, 0.0, 1e-7], [3e-7, -2e-7, -4e-7], [0.7, -1.3, 1e-7]]
+    elif kind == "SE3":
+        tiny = A.unit([2e-7, -3e-7, 1e-7, 1.0])
+        ps = ps + [[0.0, 0.0, 0.0] + tiny, [3e-7, -2e-7, 1e-7] + tiny, [0.7, -1.3, 2.1] + tiny, [0.0, 0.0, 0.0] + [-x for x in tiny]]
+    else:
+        ps = ps + [[3e-7, -2e-7, 1e-7][: len(ps[0])]]
+    return ps
+
+
 def run_chunk(chunk, tier, seed):
     typ, kind, i = chunk
     acc = Acc(ID, signature)
-    ps = A.poses(kind, tier, seed)
+    ps = _alpha(kind, tier, seed)
     if typ == "binary":
         for b in ps:
             _do(acc, {"t": "binary", "kind": kind, "a": ps[i], "b": b})
@@ -59,7 +72,8 @@ def run_chunk(chunk, tier, seed):
             for p in A.T(n, tier, seed):
                 _do(acc, {"t": "point", "kind": kind, "a": a, "p": p})
     else:
-        for a in ps:
+        # forward and then backward through the alphabet: results must not depend on which pose was asked before
+        for a in ps + ps[::-1]:
             _do(acc, {"t": "unary", "kind": kind, "a": a})
     return acc
 
@@ -219,6 +233,29 @@ def _eval_inner(case):
                     ck.msgs.append("%s is not the first %d rows of its full counterpart" % (name, cpt))
         if I.comps(a) != a_st or I.comps(b) != b_st:
             ck.msgs.append("a Jacobian method mutated an operand")
+        # history: self is edited IN PLACE to another pose of the alphabet and asked again (no stale per-object intermediate results)
+        if not ck.msgs:
+            np.asarray(a)[...] = b_st
+            for name, opn, wrt, compact in BINARY:
+                J = np.asarray(getattr(a, name)(b), dtype=float)
+                rows = cpt if compact else amb
+                if J.shape != (rows, amb):
+                    continue
+                if opn == "oplus":
+                    op = (lambda x: (x + b).to_array()) if wrt == "self" else (lambda x: (a + x).to_array())
+                else:
+                    op = (lambda x: (x - b).to_array()) if wrt == "self" else (lambda x: (a - x).to_array())
+                operand = a if wrt == "self" else b
+                Jb = np.asarray(operand.jacobian_boxplus(), dtype=float)
+                for d in range(cpt):
+                    fd = _fd_along(op, operand, kind, d, cpt)[:rows]
+                    ck.vec("%s after an in-place edit of self, tangent direction %d" % (name, d), J.dot(Jb[:, d]), fd)
+            Ji = np.asarray(a.jacobian_inverse(), dtype=float)
+            Jb = np.asarray(a.jacobian_boxplus(), dtype=float)
+            for d in range(cpt):
+                fd = _fd_along(lambda x: x.inverse.to_array(), a, kind, d, cpt)
+                ck.vec("jacobian_inverse after an in-place edit of self, tangent direction %d" % d, Ji.dot(Jb[:, d]), fd)
+            np.asarray(a)[...] = a_st
         # a caller may edit a returned matrix in place (e.g. to weight it): later calls must not be affected
         for name, opn, wrt, compact in BINARY:
             J1 = getattr(a, name)(b)
